@@ -252,7 +252,43 @@ static void one_case(long idx)
       pid = p->pid().first;
       usleep(30000 + static_cast<useconds_t>(presleep) * 1000);  // let the helper install its SIGTERM disposition
     }
-    if (moved) {
+    if (moved && (idx / 8) % 2 == 1) {
+      // move ASSIGNMENT onto an object that runs a child of its own (policy: kill, wait): that child must be
+      // stopped by its policy there and then, the moved-from object must do nothing, and the assigned-to
+      // object goes on with the moved child and its policy
+      reproc::process *q = new reproc::process();
+      reproc::options oa;
+      oa.redirect.discard = true;
+      oa.stop = { { reproc::stop::kill, reproc::milliseconds(3000) }, {}, {} };
+      std::string proga = setup_child(idx + 5000000, 600000, 0, 3);
+      std::vector<std::string> argsa{ proga };
+      std::error_code eca = q->start(argsa, oa);
+      int pida = eca ? -1 : q->pid().first;
+      usleep(20000);
+      size_t before = g_sigs.size();
+      *q = std::move(*p);
+      if (pida > 1) {
+        bool ok = g_sigs.size() == before + 1 && g_sigs[before].pid == pida && g_sigs[before].sig == SIGKILL;
+        int st = 0;
+        pid_t w = waitpid(pida, &st, WNOHANG);
+        if (!ok)
+          viol("move-assignment-skips-stop-policy", idx, "assigning to a process object that runs a child (policy kill, wait 3 s) sent " + std::to_string(g_sigs.size() - before) + " signals instead of one SIGKILL to that child");
+        if (w == 0) {
+          viol("move-assignment-abandons-child", idx, "the child of the assigned-to process object is still running after the assignment");
+          kill(pida, SIGKILL);
+          waitpid(pida, &st, 0);
+        } else if (w == pida) {
+          viol("move-assignment-leaves-zombie", idx, "the child of the assigned-to process object was not reaped");
+        }
+      }
+      before = g_sigs.size();
+      delete p;  // moved-from
+      if (g_sigs.size() != before) viol("moved-from-destructor-signals", idx, "destroying a moved-from process object sent a signal");
+      p = q;
+      st_moved++;
+      std::string cmda = "rm -rf '" + g_scratch + "/l" + std::to_string(idx + 5000000) + "'";
+      if (system(cmda.c_str()) != 0) {}
+    } else if (moved) {
       reproc::process *q = new reproc::process(std::move(*p));
       size_t before = g_sigs.size();
       delete p;  // moved-from
